@@ -3,7 +3,9 @@
 (* The observe framework, declaratively (properties C08, C09, C12, C16).   *)
 (* A pool of HasTraits objects 1..NObj (0 = None) linked by                *)
 (*   child : Instance   kids : List(Instance)   d : Dict(CStr, Instance)   *)
-(* and a leaf trait value.  Object NoVal (if > 0) is of a class WITHOUT    *)
+(*   s : Set(Instance)  dl : Dict(CStr, List(Instance)) (nested container) *)
+(* a leaf trait value, and a dynamic leaf trait `extra` that add_trait     *)
+(* gives to individual objects at run time.  Object NoVal (if > 0) is of a class WITHOUT    *)
 (* the trait `value` (registration failures).                              *)
 (* An expression denotes a set of paths (as in ObserveDSL); a path is a    *)
 (* sequence of steps [k, n, notify].  Reach computes FROM SCRATCH which    *)
@@ -13,6 +15,7 @@
 EXTENDS Integers, Sequences, FiniteSets, TLC
 L == INSTANCE TraitList
 D == INSTANCE TraitDict
+TS == INSTANCE TraitSet
 
 CONSTANTS NObj, NoVal
 Obj == 1..NObj
@@ -46,26 +49,41 @@ Paths(e) ==
     [] e = "kids.items"               -> {<<T("kids", TRUE), I(TRUE)>>}
     [] e = "d.items"                  -> {<<T("d", TRUE), I(TRUE)>>}
     [] e = "child"                    -> {<<T("child", TRUE)>>}
+    [] e = "s.items.value"            -> {<<T("s", TRUE), I(TRUE), T("value", TRUE)>>}
+    [] e = "s.items"                  -> {<<T("s", TRUE), I(TRUE)>>}
+    [] e = "child.s:items.value"      -> {<<T("child", TRUE), T("s", FALSE), I(TRUE), T("value", TRUE)>>}
+    [] e = "dl.items.items.value"     -> {<<T("dl", TRUE), I(TRUE), I(TRUE), T("value", TRUE)>>}
+    [] e = "dl.items.items"           -> {<<T("dl", TRUE), I(TRUE), I(TRUE)>>}
     [] e = "csnap"                    -> {<<T("csnap", TRUE)>>}       \* observed properties of the root (C12)
     [] e = "chv"                      -> {<<T("chv", TRUE)>>}
 Exprs == {"csnap", "chv", "d.items", "kids:items.value", "value", "child.value", "child:value", "child.child.value", "kids.items.value", "kids:items:value",
           "child.kids.items.value", "[child,kids.items].value", "kids.items.child.value", "d.items.value",
           "child.d:items.value", "+tracked.value", "+tracked:kids.items", "+ltracked:items.value", "child.*", "kids.items",
-          "child"}
+          "child", "s.items.value", "s.items", "child.s:items.value", "dl.items.items.value", "dl.items.items"}
 
-\* ---- heap: [child : [Obj -> 0..NObj], kids : [Obj -> Seq(Obj)], d : [Obj -> pair sequence key -> Obj]]
+\* ---- heap: [child : [Obj -> 0..NObj], kids : [Obj -> Seq(Obj)], d : [Obj -> pair sequence key -> Obj], vals,
+\*              s : [Obj -> SUBSET Obj], dl : [Obj -> pair sequence key -> Seq(Obj)], hasx : [Obj -> 0..1], xv : [Obj -> Nat]]
 SeqSet(q) == {q[i] : i \in 1..Len(q)}
 DVals(dd) == {dd[i][2] : i \in 1..Len(dd)}
-TraitNames == {"child", "kids", "d", "value"}
-HasTrait(x, n) == n # "value" \/ x # NoVal
+DKeys(dd) == {dd[i][1] : i \in 1..Len(dd)}
+DLGet(dd, k) == dd[CHOOSE i \in 1..Len(dd) : dd[i][1] = k][2]
+DLMembers(dd) == UNION {SeqSet(dd[i][2]) : i \in 1..Len(dd)}
+\* (trait_added: the Event every HasTraits object fires when add_trait gives it a new trait; `*` matches it like any trait,
+\* and it is how a `*` registration learns about traits added later)
+StaticNames == {"child", "kids", "d", "value", "s", "dl", "trait_added"}
+TraitNamesOf(h, x) == StaticNames \cup (IF h.hasx[x] = 1 THEN {"extra"} ELSE {})
+HasTrait(h, x, n) == (n = "value" => x # NoVal) /\ (n = "extra" => h.hasx[x] = 1)
 TrackedBy(md) == IF md = "tracked" THEN {"child"} ELSE IF md = "ltracked" THEN {"kids"} ELSE {}
 
-\* things at a level: <<"o", x>> an object, <<"l", x>> the kids list of x, <<"m", x>> the dict d of x
-\* observables: <<"trait", x, n>> the trait n of object x; <<"l", x>> / <<"m", x>> the items of a container
-NamesOf(st) == IF st.k = "trait" THEN {st.n} ELSE IF st.k = "meta" THEN TrackedBy(st.n) ELSE IF st.k = "any" THEN TraitNames ELSE {}
+\* things at a level: <<"o", x>> an object, <<"l", x>> the kids list of x, <<"m", x>> the dict d of x, <<"s", x>> the set s of x,
+\*   <<"M", x>> the dict dl of x, <<"L", 100 * x + k>> the list stored under key k in the dict dl of x
+\* observables: <<"trait", x, n>> the trait n of object x; a container thing itself stands for its items
+Inner(x, k) == <<"L", 100 * x + k>>
+NamesOf(h, th, st) == IF st.k = "trait" THEN {st.n} ELSE IF st.k = "meta" THEN TrackedBy(st.n)
+                      ELSE IF st.k = "any" THEN TraitNamesOf(h, th[2]) ELSE {}
 \* the observables step st contributes from thing th (whether they exist at all is FailsAt's business)
 ObsOf(h, th, st) ==
-  IF th[1] = "o" THEN {<<"trait", th[2], n>> : n \in {m \in NamesOf(st) : HasTrait(th[2], m)}}
+  IF th[1] = "o" THEN {<<"trait", th[2], n>> : n \in {m \in NamesOf(h, th, st) : HasTrait(h, th[2], m)}}
   ELSE IF st.k = "items" THEN {th} ELSE {}
 \* the things one level further
 NextOf(h, th, st) ==
@@ -74,11 +92,16 @@ NextOf(h, th, st) ==
        UNION {CASE n = "child" -> IF h.child[x] = NoneO THEN {} ELSE {<<"o", h.child[x]>>}
                 [] n = "kids"  -> {<<"l", x>>}
                 [] n = "d"     -> {<<"m", x>>}
+                [] n = "s"     -> {<<"s", x>>}
+                [] n = "dl"    -> {<<"M", x>>}
                 [] OTHER       -> {}
-              : n \in NamesOf(st)}
+              : n \in NamesOf(h, th, st)}
   ELSE IF st.k # "items" THEN {}
   ELSE IF th[1] = "l" THEN {<<"o", y>> : y \in SeqSet(h.kids[th[2]])}
-  ELSE {<<"o", y>> : y \in DVals(h.d[th[2]])}
+  ELSE IF th[1] = "m" THEN {<<"o", y>> : y \in DVals(h.d[th[2]])}
+  ELSE IF th[1] = "s" THEN {<<"o", y>> : y \in h.s[th[2]]}
+  ELSE IF th[1] = "M" THEN {Inner(th[2], k) : k \in DKeys(h.dl[th[2]])}
+  ELSE LET x == th[2] \div 100  k == th[2] % 100 IN {<<"o", y>> : y \in SeqSet(DLGet(h.dl[x], k))}
 
 \* Level(h, p, k): the things the first k steps of path p lead to from the root
 RECURSIVE Level(_, _, _)
@@ -90,7 +113,7 @@ Notifying(h, e) == {c[1] : c \in {c \in UNION {Covered(h, p) : p \in Paths(e)} :
 AllCovered(h, e) == {c[1] : c \in UNION {Covered(h, p) : p \in Paths(e)}}
 
 \* a registration of e fails iff the walk meets an object lacking a required (non-optional) named trait
-FailsPath(h, p) == \E k \in 1..Len(p) : p[k].k = "trait" /\ \E th \in Level(h, p, k - 1) : th[1] = "o" /\ ~HasTrait(th[2], p[k].n)
+FailsPath(h, p) == \E k \in 1..Len(p) : p[k].k = "trait" /\ \E th \in Level(h, p, k - 1) : th[1] = "o" /\ ~HasTrait(h, th[2], p[k].n)
 Fails(h, e) == \E p \in Paths(e) : FailsPath(h, p)
 
 \* ---- mutations.  m = [op, x, a, xs, ps]; kids operations are those of TraitList on object numbers,
@@ -98,6 +121,19 @@ Fails(h, e) == \E p \in Paths(e) : FailsPath(h, p)
 SameSeq(a, b) == a = b
 MutKids(h, m) == L!Apply(m.op, h.kids[m.x], "id", m.a, m.xs)
 MutD(h, m) == D!Apply(m.op, h.d[m.x], "coerce", "id", m.a, m.ps)
+\* set operations: m.xs the argument items (one argument set); pop is not used (it removes an arbitrary member)
+MutS(h, m) == TS!Apply(m.op, h.s[m.x], "id", m.a, <<SeqSet(m.xs)>>, 0)
+\* dl: m.a[1] the key (coerced like the keys of d); setitem stores the list m.xs; "dlin": an operation of TraitList on the
+\* inner list under key m.a[4] (m.a[1..3] its integer arguments, m.xs its items)
+CK(k) == D!V("coerce", k)
+DLHas(dd, k) == k \in DKeys(dd)
+DLPut(dd, k, q) == IF DLHas(dd, k) THEN [i \in 1..Len(dd) |-> IF dd[i][1] = k THEN <<k, q>> ELSE dd[i]] ELSE Append(dd, <<k, q>>)
+DLDel(dd, k) == SelectSeq(dd, LAMBDA p : p[1] # k)
+\* (a key that is not there: KeyError, nothing happens)
+InnerOK(h, m) == DLHas(h.dl[m.x], m.a[4])
+MutInner(h, m) == IF InnerOK(h, m) THEN L!Apply(m.op, DLGet(h.dl[m.x], m.a[4]), "id", <<m.a[1], m.a[2], m.a[3]>>, m.xs)
+                  ELSE [post |-> <<>>, ret |-> 0, excs |-> {"KeyError"}]
+DLEq(a, b) == DKeys(a) = DKeys(b) /\ \A k \in DKeys(a) : DLGet(a, k) = DLGet(b, k)
 Mutate(h, m) ==
   CASE m.t = "child" -> [h EXCEPT !.child[m.x] = m.a[1]]
     [] m.t = "kidsassign" -> [h EXCEPT !.kids[m.x] = m.xs]
@@ -105,10 +141,23 @@ Mutate(h, m) ==
     [] m.t = "dassign" -> [h EXCEPT !.d[m.x] = D!PutAll(<<>>, D!VPairs("coerce", "id", m.ps))]
     [] m.t = "d" -> [h EXCEPT !.d[m.x] = MutD(h, m).post]
     [] m.t = "value" -> [h EXCEPT !.vals[m.x] = @ + 1]
+    [] m.t = "sassign" -> [h EXCEPT !.s[m.x] = SeqSet(m.xs)]
+    [] m.t = "s" -> [h EXCEPT !.s[m.x] = MutS(h, m).post]
+    [] m.t = "dlassign" -> [h EXCEPT !.dl[m.x] = m.ps]                         \* m.ps: <<key, list>> pairs, distinct valid keys
+    [] m.t = "dl" -> [h EXCEPT !.dl[m.x] = CASE m.op = "setitem" -> DLPut(@, CK(m.a[1]), m.xs)
+                                             [] m.op = "delitem" -> DLDel(@, m.a[1])         \* (absent key: KeyError, no change)
+                                             [] m.op = "clear" -> <<>>]
+    [] m.t = "dlin" -> IF InnerOK(h, m) THEN [h EXCEPT !.dl[m.x] = DLPut(@, m.a[4], MutInner(h, m).post)] ELSE h
+    [] m.t = "addx" -> [h EXCEPT !.hasx[m.x] = 1]                              \* add_trait("extra", ...) on object m.x
+    [] m.t = "xv" -> [h EXCEPT !.xv[m.x] = @ + 1]                              \* obj.extra += 1
 \* the observable a mutation hits, and whether it is a real change (must notify) / may notify
 Hit(m) == CASE m.t = "child" -> <<"trait", m.x, "child">> [] m.t = "kidsassign" -> <<"trait", m.x, "kids">>
             [] m.t = "kids" -> <<"l", m.x>> [] m.t = "dassign" -> <<"trait", m.x, "d">> [] m.t = "d" -> <<"m", m.x>>
             [] m.t = "value" -> <<"trait", m.x, "value">>
+            [] m.t = "sassign" -> <<"trait", m.x, "s">> [] m.t = "s" -> <<"s", m.x>>
+            [] m.t = "dlassign" -> <<"trait", m.x, "dl">> [] m.t = "dl" -> <<"M", m.x>> [] m.t = "dlin" -> Inner(m.x, m.a[4])
+            [] m.t = "addx" -> <<"trait", m.x, "trait_added">>
+            [] m.t = "xv" -> <<"trait", m.x, "extra">>
 IsChange(h, m) ==
   CASE m.t = "child" -> TRUE                                     \* comparison mode none: every assignment
     [] m.t = "kidsassign" -> h.kids[m.x] # m.xs                   \* equality mode: an equal list is no change
@@ -116,8 +165,17 @@ IsChange(h, m) ==
     [] m.t = "dassign" -> ~D!DictEq(h.d[m.x], Mutate(h, m).d[m.x])
     [] m.t = "d" -> ~D!DictEq(h.d[m.x], MutD(h, m).post)
     [] m.t = "value" -> TRUE
+    [] m.t = "sassign" -> h.s[m.x] # SeqSet(m.xs)
+    [] m.t = "s" -> MutS(h, m).post # h.s[m.x]
+    [] m.t = "dlassign" -> ~DLEq(h.dl[m.x], m.ps)
+    [] m.t = "dl" -> ~DLEq(h.dl[m.x], Mutate(h, m).dl[m.x])
+    [] m.t = "dlin" -> InnerOK(h, m) /\ MutInner(h, m).post # DLGet(h.dl[m.x], m.a[4])
+    [] m.t = "addx" -> TRUE                     \* an Event: every firing is a change
+    [] m.t = "xv" -> TRUE
 \* container operations that change nothing may still emit an identity event (C05/C06 leave it open)
+\* (sets: operations that change nothing are silent - C07; storing an equal list under an existing key of dl is a dict event)
 MayNotify(h, m) == IsChange(h, m) \/ (m.t \in {"kids", "d"} /\ (IF m.t = "kids" THEN MutKids(h, m) ELSE MutD(h, m)).excs = {""})
+                   \/ (m.t = "dl" /\ m.op = "setitem") \/ (m.t = "dlin" /\ MutInner(h, m).excs = {""})
 
 \* ---- observed properties (C12): name -> dependency expression; value computed from the heap
 Props == {"csnap", "chv"}
@@ -136,7 +194,8 @@ CalledViaProp(h, e, m) == e \in Props /\ Relevant(h, e, m)
 \* ---- known finding F8 (found by TLC on ObserveImpl.tla): a link of an object that lies on a cycle of the
 \* heap is mutated - the maintainers' removal walk from the old value re-reads the object's new link
 Succs(h, x) == (IF h.child[x] = NoneO THEN {} ELSE {h.child[x]}) \cup SeqSet(h.kids[x]) \cup DVals(h.d[x])
+               \cup h.s[x] \cup DLMembers(h.dl[x])
 RECURSIVE Closure(_, _)
-Closure(h, S) == LET S2 == S \cup UNION {Succs(h, x) : x \in S} IN IF S2 = S THEN S ELSE Closure(h, S2)
+Closure(h, Q) == LET Q2 == Q \cup UNION {Succs(h, x) : x \in Q} IN IF Q2 = Q THEN Q ELSE Closure(h, Q2)
 OnCycle(h, x) == x \in Closure(h, Succs(h, x))
 =============================================================================
